@@ -110,9 +110,10 @@ func runTime(cell c12Cell, sc c12Scenario, info func(string, ...any)) (res c12Ti
 	vt := vtag(&cell, sc)
 	defer func() {
 		if v := recover(); v != nil {
+			st := debug.Stack()
 			viols = append(viols, c12Viol{
-				Sig:  "time/panic",
-				What: fmt.Sprintf("panic in advanceState: %v\n%s", v, debug.Stack()),
+				Sig:  "time/panic/at=" + panicSite(st),
+				What: fmt.Sprintf("panic in advanceState: %v\n%s", v, st),
 			})
 		}
 	}()
@@ -245,9 +246,13 @@ func runDisp(cell c12Cell, sc c12Scenario, info func(string, ...any)) (res c12Di
 	cell = w.cell
 	defer func() {
 		if v := recover(); v != nil {
+			// One signature per panic site (not per scenario): the site names the
+			// defect, the replay names one execution that reaches it.
+			st := debug.Stack()
 			viols = append(viols, c12Viol{
-				Sig:  fmt.Sprintf("disp/panic/pre=%s/conf=%s%s", sc.Pre, sc.Conf, vtag(&cell, sc)),
-				What: fmt.Sprintf("panic in advanceState: %v\n%s", v, debug.Stack()),
+				Sig: "disp/panic/at=" + panicSite(st),
+				What: fmt.Sprintf("panic in the arbitrator (pre=%s conf=%s%s): %v\n%s", sc.Pre, sc.Conf,
+					vtag(&cell, sc), v, st),
 			})
 		}
 	}()
@@ -297,6 +302,28 @@ func runDisp(cell c12Cell, sc c12Scenario, info func(string, ...any)) (res c12Di
 	obs = w.snapshot()
 	res.Classes, viols = judgeDisp(&cell, sc, &obs)
 	return
+}
+
+// panicSite: the innermost lnd (non-harness) function on a panicking stack.
+func panicSite(stack []byte) string {
+	seenPanic := false
+	for _, ln := range strings.Split(string(stack), "\n") {
+		if strings.HasPrefix(ln, "panic(") {
+			seenPanic = true
+			continue
+		}
+		if !seenPanic || strings.HasPrefix(ln, "\t") || strings.HasPrefix(ln, "runtime.") {
+			continue
+		}
+		if i := strings.Index(ln, "lightningnetwork/lnd/"); i >= 0 {
+			f := ln[i+len("lightningnetwork/lnd/"):]
+			if j := strings.LastIndex(f, "("); j > 0 {
+				f = f[:j]
+			}
+			return f
+		}
+	}
+	return "unknown"
 }
 
 func kindDir(kind string) string {
@@ -415,7 +442,7 @@ func judgeDisp(c *c12Cell, sc c12Scenario, o *c12Obs) (classes []string, viols [
 			classes = append(classes, cpfx+"|htlc-resolver-on-"+sc.Conf)
 			continue
 		}
-		if r.Hash != c12CommitHash[key].String()[:8] {
+		if r.Hash != c.commitHash(key).String()[:8] {
 			add("resolver-for-other-commitment", nil, fmt.Sprintf("resolver %s watches %s:%d, not the confirmed commitment", r.Kind, r.Hash, r.Index))
 			continue
 		}
